@@ -52,6 +52,7 @@ func coarseAlphabet(p int) map[string][]classOpt {
 			{"p2-name", func(a *refmodel.Claims) { a.Profile = sp(refmodel.P2Name) }},
 			{"canonical-lowercase", func(a *refmodel.Claims) { a.Profile = sp(strings.ToLower(canon)) }},
 			{"canonical-trailing-space", func(a *refmodel.Claims) { a.Profile = sp(canon + " ") }},
+			{"canonical-trailing-nul", func(a *refmodel.Claims) { a.Profile = sp(canon + "\x00") }},
 			// values that read like the library's own benign error phrases (they get quoted in error messages)
 			{"phrase-missing-optional", func(a *refmodel.Claims) { a.Profile = sp(psatoken.ErrOptionalClaimMissing.Error()) }},
 			{"phrase-not-in-profile", func(a *refmodel.Claims) {
@@ -64,6 +65,7 @@ func coarseAlphabet(p int) map[string][]classOpt {
 			{"absent", func(a *refmodel.Claims) { a.Profile = nil }},
 			{"other-url", func(a *refmodel.Claims) { a.Profile = sp("http://other.example/p") }},
 			{"oid", func(a *refmodel.Claims) { a.Profile = sp("1.2.3.4") }},
+			{"rfc9783-name", func(a *refmodel.Claims) { a.Profile = sp("tag:psacertified.org,2023:psa#tfm") }},
 			{"invalid-object", func(a *refmodel.Claims) { a.Profile = nil; a.ProfileInvalid = true }},
 			{"canonical-path-uppercase", func(a *refmodel.Claims) { a.Profile = sp("http://arm.com/PSA/2.0.0") }},
 			{"canonical-trailing-slash", func(a *refmodel.Claims) { a.Profile = sp(canon + "/") }},
